@@ -1463,17 +1463,21 @@ func ruleEmittedPythonBlocksAreNeverEmpty(c *core.Ctx) {
 				}
 			}
 			// case analysis over the conditions of the top-level statements: `for v := range X {print}` prints when X is
-			// not empty, `if len(X) == 0 && !flag {print "pass"}` when it is — together they may cover every case
+			// not empty, `if len(X) == 0 && !flag {print "pass"}` when it is, `if kind == A {print}` / `if kind == B || kind == C
+			// {print}` cover an enumeration — together they may cover every case
 			atoms := []string{}
-			addAtom := func(a string) {
+			domains := map[string][]string{}
+			addAtom := func(a string, dom []string) {
 				for _, x := range atoms {
 					if x == a {
 						return
 					}
 				}
 				atoms = append(atoms, a)
+				domains[a] = dom
 			}
-			var eval func(e ast.Expr, env map[string]bool) (bool, bool)
+			boolDom := []string{"false", "true"}
+			var eval func(e ast.Expr, env map[string]string) (bool, bool)
 			lenAtom := func(e ast.Expr) (string, bool) { // len(X) -> "empty:X"
 				if ce, ok := ast.Unparen(e).(*ast.CallExpr); ok && len(ce.Args) == 1 {
 					if id, ok := ast.Unparen(ce.Fun).(*ast.Ident); ok && id.Name == "len" {
@@ -1482,7 +1486,21 @@ func ruleEmittedPythonBlocksAreNeverEmpty(c *core.Ctx) {
 				}
 				return "", false
 			}
-			eval = func(e ast.Expr, env map[string]bool) (val bool, known bool) {
+			enumDomain := func(t types.Type) []string {
+				nt := core.NamedOf(t)
+				if nt == nil || nt.Obj().Pkg() == nil {
+					return nil
+				}
+				var dom []string
+				sc := nt.Obj().Pkg().Scope()
+				for _, name := range sc.Names() {
+					if k, ok := sc.Lookup(name).(*types.Const); ok && types.Identical(k.Type(), nt) {
+						dom = append(dom, k.Val().ExactString())
+					}
+				}
+				return dom
+			}
+			eval = func(e ast.Expr, env map[string]string) (val bool, known bool) {
 				switch x := ast.Unparen(e).(type) {
 				case *ast.UnaryExpr:
 					if x.Op == token.NOT {
@@ -1501,12 +1519,35 @@ func ruleEmittedPythonBlocksAreNeverEmpty(c *core.Ctx) {
 					case token.EQL, token.NEQ, token.GTR:
 						if at, ok := lenAtom(x.X); ok {
 							if tv, ok := info.Types[x.Y]; ok && tv.Value != nil && tv.Value.ExactString() == "0" {
-								addAtom(at)
-								empty := env[at]
+								addAtom(at, boolDom)
+								empty := env[at] == "true"
 								if x.Op == token.EQL {
 									return empty, true
 								}
 								return !empty, true
+							}
+						}
+						if x.Op != token.GTR {
+							// `v == Const` over an enumeration declared in the module
+							for _, pr := range [][2]ast.Expr{{x.X, x.Y}, {x.Y, x.X}} {
+								tv, isConst := info.Types[pr[1]]
+								if !isConst || tv.Value == nil {
+									continue
+								}
+								if _, selfConst := info.Types[pr[0]]; selfConst && info.Types[pr[0]].Value != nil {
+									continue
+								}
+								dom := enumDomain(info.TypeOf(pr[0]))
+								if len(dom) == 0 || len(dom) > 8 {
+									continue
+								}
+								a := "enum:" + types.ExprString(pr[0])
+								addAtom(a, dom)
+								eq := env[a] == tv.Value.ExactString()
+								if x.Op == token.EQL {
+									return eq, true
+								}
+								return !eq, true
 							}
 						}
 					}
@@ -1514,20 +1555,20 @@ func ruleEmittedPythonBlocksAreNeverEmpty(c *core.Ctx) {
 					if t := info.TypeOf(x); t != nil {
 						if b, ok := t.Underlying().(*types.Basic); ok && b.Kind() == types.Bool {
 							a := "bool:" + types.ExprString(x)
-							addAtom(a)
-							return env[a], true
+							addAtom(a, boolDom)
+							return env[a] == "true", true
 						}
 					}
 				}
 				return false, false
 			}
-			printsUnder := func(env map[string]bool) bool {
+			printsUnder := func(env map[string]string) bool {
 				for _, s := range list {
 					switch x := s.(type) {
 					case *ast.RangeStmt:
 						a := "empty:" + types.ExprString(x.X)
-						addAtom(a)
-						if !env[a] && definite(x.Body.List, depth+1) {
+						addAtom(a, boolDom)
+						if env[a] != "true" && definite(x.Body.List, depth+1) {
 							return true
 						}
 					case *ast.IfStmt:
@@ -1541,20 +1582,41 @@ func ruleEmittedPythonBlocksAreNeverEmpty(c *core.Ctx) {
 						if eb, ok := x.Else.(*ast.BlockStmt); ok && known && !v && definite(eb.List, depth+1) {
 							return true
 						}
+						if known && v && bodyLeaves(x.Body) {
+							return false // the path leaves here without having printed
+						}
 					}
 				}
 				return false
 			}
-			printsUnder(map[string]bool{}) // collects the atoms
-			if len(atoms) > 0 && len(atoms) <= 6 {
+			first := map[string]string{}
+			printsUnder(first) // collects the atoms
+			total := 1
+			for _, a := range atoms {
+				total *= len(domains[a])
+			}
+			if len(atoms) > 0 && total <= 256 {
 				all := true
-				for m := 0; m < 1<<len(atoms); m++ {
-					env := map[string]bool{}
+				idx := make([]int, len(atoms))
+				for {
+					env := map[string]string{}
 					for i, a := range atoms {
-						env[a] = m&(1<<i) != 0
+						env[a] = domains[a][idx[i]]
 					}
 					if !printsUnder(env) {
 						all = false
+						break
+					}
+					k := 0
+					for k < len(idx) {
+						idx[k]++
+						if idx[k] < len(domains[atoms[k]]) {
+							break
+						}
+						idx[k] = 0
+						k++
+					}
+					if k == len(idx) {
 						break
 					}
 				}
@@ -1753,7 +1815,7 @@ func ruleDepthLimitAdmitsExactlyMax(c *core.Ctx) {
 			return true
 		}
 		for i, a := range ce.Args {
-			be, ok := ast.Unparen(a).(*ast.BinaryExpr)
+			be, ok := ast.Unparen(core.InlineLocals(info, d.Body, a)).(*ast.BinaryExpr)
 			if !ok || (be.Op != token.ADD && be.Op != token.SUB) || i >= len(params) {
 				continue
 			}
@@ -1992,89 +2054,73 @@ func ruleEmittedToJsonStartsFromAContainer(c *core.Ctx) {
 		return
 	}
 	info := p.TypesInfo
-	n := 0
+	isHeader := func(e ast.Node) bool {
+		found := false
+		ast.Inspect(e, func(m ast.Node) bool {
+			if _, isLit := m.(*ast.FuncLit); isLit {
+				return false
+			}
+			if bl, ok := m.(*ast.BasicLit); ok && bl.Kind == token.STRING {
+				if tv, ok := info.Types[bl]; ok && tv.Value != nil {
+					t := constant.StringVal(tv.Value)
+					if strings.Contains(t, "to_json(ordered_json& j") && strings.HasSuffix(strings.TrimSpace(t), "{") {
+						found = true
+					}
+				}
+			}
+			return true
+		})
+		return found
+	}
+	headers, n := 0, 0
 	for _, d := range c.AllDecls() {
 		if c.DeclPkg(d) != p || d.Body == nil || c.IsTestFile(d.Pos()) {
 			continue
 		}
+		localLits := map[types.Object]*ast.FuncLit{}
+		ast.Inspect(d.Body, func(m ast.Node) bool {
+			if as, ok := m.(*ast.AssignStmt); ok && len(as.Lhs) == 1 && len(as.Rhs) == 1 {
+				if fl, ok := ast.Unparen(as.Rhs[0]).(*ast.FuncLit); ok {
+					if o := identObj(info, as.Lhs[0]); o != nil {
+						localLits[o] = fl
+					}
+				}
+			}
+			return true
+		})
+		var bodies []*ast.FuncLit
 		var walkList func(list []ast.Stmt)
 		walkList = func(list []ast.Stmt) {
-			for i := 0; i+1 < len(list); i++ {
-				es, ok := list[i].(*ast.ExprStmt)
-				if !ok {
-					continue
-				}
-				hdr := ""
-				if ce, ok := es.X.(*ast.CallExpr); ok {
-					for _, a := range ce.Args {
-						if tv, ok := info.Types[a]; ok && tv.Value != nil && tv.Value.Kind() == constant.String {
-							hdr = constant.StringVal(tv.Value)
+			for i, st := range list {
+				es, ok := st.(*ast.ExprStmt)
+				if ok {
+					if ce, ok := es.X.(*ast.CallExpr); ok && isHeader(ce) {
+						headers++
+						// (2) the header and the body are handed to one block helper
+						got := false
+						for _, a := range ce.Args {
+							switch x := ast.Unparen(a).(type) {
+							case *ast.FuncLit:
+								bodies, got = append(bodies, x), true
+							case *ast.Ident:
+								if fl := localLits[info.ObjectOf(x)]; fl != nil {
+									bodies, got = append(bodies, fl), true
+								}
+							}
 						}
-					}
-				}
-				if !strings.Contains(hdr, "to_json(ordered_json& j") || !strings.HasSuffix(strings.TrimSpace(hdr), "{") {
-					continue
-				}
-				es2, ok := list[i+1].(*ast.ExprStmt)
-				if !ok {
-					continue
-				}
-				ind, ok := es2.X.(*ast.CallExpr)
-				if !ok || !strings.HasSuffix(types.ExprString(ind.Fun), "Indented") || len(ind.Args) != 1 {
-					continue
-				}
-				fl, ok := ast.Unparen(ind.Args[0]).(*ast.FuncLit)
-				if !ok {
-					continue
-				}
-				// the templates of the body in source order, with the brace depth of the emitted text
-				depth, initialised := 0, false
-				var firstAdd token.Pos
-				ast.Inspect(fl.Body, func(m ast.Node) bool {
-					bl, ok := m.(*ast.BasicLit)
-					if !ok || bl.Kind != token.STRING {
-						return true
-					}
-					tv, ok := info.Types[bl]
-					if !ok || tv.Value == nil {
-						return true
-					}
-					t := constant.StringVal(tv.Value)
-					adds := strings.Contains(t, "j.push_back(") || strings.Contains(t, "j[") || strings.Contains(t, "j.emplace")
-					if adds && !initialised && firstAdd == token.NoPos {
-						firstAdd = bl.Pos()
-					}
-					if depth == 0 && strings.HasPrefix(strings.TrimSpace(t), "j = ") && firstAdd == token.NoPos {
-						initialised = true
-					}
-					depth += strings.Count(t, "{") - strings.Count(t, "}")
-					return true
-				})
-				hasAdds := false
-				ast.Inspect(fl.Body, func(m ast.Node) bool {
-					if bl, ok := m.(*ast.BasicLit); ok && bl.Kind == token.STRING {
-						if tv, ok := info.Types[bl]; ok && tv.Value != nil {
-							t := constant.StringVal(tv.Value)
-							if strings.Contains(t, "j.push_back(") || strings.Contains(t, "j[") || strings.Contains(t, "j.emplace") {
-								hasAdds = true
+						// (1) the header is printed and the next statement prints the indented body
+						if !got && i+1 < len(list) {
+							if es2, ok := list[i+1].(*ast.ExprStmt); ok {
+								if ind, ok := es2.X.(*ast.CallExpr); ok && strings.HasSuffix(types.ExprString(ind.Fun), "Indented") && len(ind.Args) == 1 {
+									if fl, ok := ast.Unparen(ind.Args[0]).(*ast.FuncLit); ok {
+										bodies = append(bodies, fl)
+									}
+								}
 							}
 						}
 					}
-					return true
-				})
-				if !hasAdds {
-					continue
 				}
-				n++
-				at := fl.Pos()
-				if firstAdd != token.NoPos {
-					at = firstAdd
-				}
-				c.Check(firstAdd == token.NoPos, rule, c.FuncName(d)+"/to_json", at, "`j = …;` is printed at depth 0 before the first addition",
-					"members are added to `j` under printed conditions and nothing gives `j` its container kind first: a record whose optional fields are all empty is written as `null` instead of `{}`, and read back as an absent value")
-			}
-			for _, s := range list {
-				ast.Inspect(s, func(m ast.Node) bool {
+				ast.Inspect(st, func(m ast.Node) bool {
 					switch x := m.(type) {
 					case *ast.BlockStmt:
 						walkList(x.List)
@@ -2088,9 +2134,49 @@ func ruleEmittedToJsonStartsFromAContainer(c *core.Ctx) {
 			}
 		}
 		walkList(d.Body.List)
+		for _, fl := range bodies {
+			depth, initialised := 0, false
+			var firstAdd token.Pos
+			hasAdds := false
+			ast.Inspect(fl.Body, func(m ast.Node) bool {
+				bl, ok := m.(*ast.BasicLit)
+				if !ok || bl.Kind != token.STRING {
+					return true
+				}
+				tv, ok := info.Types[bl]
+				if !ok || tv.Value == nil {
+					return true
+				}
+				t := constant.StringVal(tv.Value)
+				adds := strings.Contains(t, "j.push_back(") || strings.Contains(t, "j[") || strings.Contains(t, "j.emplace")
+				if adds {
+					hasAdds = true
+					if !initialised && firstAdd == token.NoPos {
+						firstAdd = bl.Pos()
+					}
+				}
+				if depth == 0 && strings.HasPrefix(strings.TrimSpace(t), "j = ") && firstAdd == token.NoPos {
+					initialised = true
+				}
+				depth += strings.Count(t, "{") - strings.Count(t, "}")
+				return true
+			})
+			if !hasAdds {
+				continue
+			}
+			n++
+			at := fl.Pos()
+			if firstAdd != token.NoPos {
+				at = firstAdd
+			}
+			c.Check(firstAdd == token.NoPos, rule, c.FuncName(d)+"/to_json", at, "`j = …;` is printed at depth 0 before the first addition",
+				"members are added to `j` under printed conditions and nothing gives `j` its container kind first: a record whose optional fields are all empty is written as `null` instead of `{}`, and read back as an absent value")
+		}
 	}
-	if n == 0 {
-		c.Undecided(rule, "anchor/printed to_json with additions", 0, "none found")
+	if headers == 0 {
+		c.Undecided(rule, "anchor/printed to_json functions", 0, "no printed `to_json(ordered_json& j, …) {` found in cpp/ndjson")
+	} else if n == 0 {
+		c.OK(rule, "cpp/ndjson/to_json functions", 0, fmt.Sprintf("%d printed to_json functions, none adds members to `j` one by one", headers))
 	}
 }
 
